@@ -297,7 +297,7 @@ theorem notMem_eqS (L : Layout) (c : Char) (h1 : c ≠ ' ') (h2 : c ≠ '=') : c
   · exact h2 e
 
 /-- **`matchNum` on a written row of any layout**: `key`, ` ?= ?`, numeral, blanks, line break — the numeral with its sign
-when it has one (pattern `(-?…)`: every numeric row since fix A30, c4606fd), on EVERY row: start, end, point time -/
+when it has one (pattern `(-?…)`: every numeric row since fix A30, 818cdcd), on EVERY row: start, end, point time -/
 theorem numAfter_gen (L : Layout) (w tr rest : List Char) (h : LongNum w) (htr : Blank tr) :
     numAfter true (eqS L ++ (w ++ (tr ++ '\n' :: rest))) = some w := by
   obtain ⟨a, as, hw, ha⟩ := h.head
@@ -1813,12 +1813,12 @@ short format strip-invariant) and on labels.  C03 quantifies over files written 
 replayed on praatio, agreed with the model — and was a genuine defect of one of the two readers.  All three are repaired in /repo
 and the hypotheses are gone or weakened; the former counter-example theorems are regression theorems:
 
-* a SIGNED numeral (A30, fixed c4606fd) — the sign is captured with the numeral on every numeric row (`numAfter_gen`,
+* a SIGNED numeral (A30, fixed 818cdcd) — the sign is captured with the numeral on every numeric row (`numAfter_gen`,
   `numAfter_signed_gen`; a concrete file: `neg_zero_start_sample`); a point at `-1` is read as `-1` from the long and from the
   short file (`long_short_negative_regression`).  Before: matched but dropped on start rows, `ParsingError` on `xmax` rows;
-* a tier NAME with surrounding blanks (A31, fixed db5fb4a): kept by both readers (`long_short_name_blank_regression`).  Before:
+* a tier NAME with surrounding blanks (A31, fixed 5bcdbd7): kept by both readers (`long_short_name_blank_regression`).  Before:
   stripped by the short-format reader;
-* a multi-line tier NAME (A32, fixed ae33f8b): read by both readers (`long_short_name_newline_regression`).  Before:
+* a multi-line tier NAME (A32, fixed 2c24cb2): read by both readers (`long_short_name_newline_regression`).  Before:
   `ParsingError` in the long-format one.  What the intermediate hypothesis `NameRowFree` still excluded — a name LINE that reads like
   the tier's span row — was defect A33 (fixed c86c7a5: the span rows are searched behind the name): `long_short_name_row_regression`.
 -/
@@ -1929,7 +1929,7 @@ theorem negTg_long_hyps : (∀ t ∈ negTg.tiers, NoKwLong t) ∧ (∀ t ∈ neg
     subst hs
     rw [pyStrip_eq_iff]; exact noEdge_of_stripList _ (by decide)
 
-/-- **NEGATIVE times, regression for A30 (fixed, c4606fd)** (Praat writes negative times for a TextGrid whose time domain
+/-- **NEGATIVE times, regression for A30 (fixed, 818cdcd)** (Praat writes negative times for a TextGrid whose time domain
 starts before 0).  The point tier `p` on [-3, 2] with one point at -1, written by praatio's own emitters: the short file AND
 the long file are read back exactly (point at `-1`, tier from `-3`), so long and short encodings of the same data open to equal
 textgrids.  Before the fix the long file was read WITHOUT ANY ERROR as a tier from `3` to `2` with its point at `1` (the sign
@@ -1944,7 +1944,7 @@ theorem long_short_negative_regression :
     negTg_hyps.2.2.2
   exact ⟨hS, hL, by rw [hS, hL]⟩
 
-/-- **a tier NAME with surrounding blanks, regression for A31 (fixed, db5fb4a): long and short encodings open to EQUAL
+/-- **a tier NAME with surrounding blanks, regression for A31 (fixed, 5bcdbd7): long and short encodings open to EQUAL
 textgrids**.  The tier named `" a "` (a legal in-memory object — no constructor strips names — and a conformant file:
 `name = " a "`): both readers return the name as written.  Before the fix the short-format reader stripped it:
 `IntervalTier(" a ", [(0, 1, "x")], 0, 2)` saved and reopened gave `tierNames == (" a ",)` for "long_textgrid", "json",
@@ -1983,7 +1983,7 @@ theorem nlNameTg_short : Rd.parseShort (Txt.ofString (tgToShort numN nlNameTg 0 
   · simp only [texts, List.map_nil, List.mem_cons, List.not_mem_nil, or_false] at hs; subst hs
     decide
 
-/-- **a multi-line tier NAME, regression for A32 (fixed, ae33f8b): read from the short file AND from the long file**, to equal
+/-- **a multi-line tier NAME, regression for A32 (fixed, 2c24cb2): read from the short file AND from the long file**, to equal
 textgrids.  Before the fix the long-format pattern `name ?= ?"(.*)"\s*$` had no DOTALL: `IntervalTier("a\nb", …)` saved as
 "short_textgrid", "json", "textgrid_json" was reopened unchanged; as "long_textgrid": `ParsingError: Expected field in Textgrid
 missing.` -/
